@@ -197,6 +197,18 @@ if __name__ == '__main__':
         sys.exit(suite(sys.argv[2]))
     if cmd == 'confirm':
         sys.exit(confirm(sys.argv[2], sys.argv[3], '--suite' in sys.argv))
+    if cmd == 'matrix':
+        # re-run, for every seeded change, the checks recorded for it (at least its target property's) with the current harness
+        import glob
+        for d in sorted(glob.glob(os.path.join(VERIF, 'seeded', '*'))):
+            name = os.path.basename(d)
+            m = load_meta(d)
+            ids = sorted({k.split(':')[0] for k in m.get('checks', {})} | {m.get('property', name[:3])})
+            m['checks'] = {}
+            save_meta(d, m)
+            print('==', name, ids)
+            run(name, ids)
+        sys.exit(0)
     if cmd == 'run':
         tier = 'quick'
         args = sys.argv[3:]
